@@ -170,6 +170,26 @@ func run(c *harness.C, k cfg, f fault, r world.Chooser) *out {
 						if k.Stack == "S" {
 							data = []byte("\x30\x03\x04\x01\x01")
 						}
+					case "public-keys-0", "public-keys-2", "public-keys-n-1", "public-keys-n+1":
+						// well-formed stored data that lists another number of public keys
+						var sd struct {
+							Sk          []byte
+							PublicKeys  [][]byte
+							ThresholdPK []byte
+						}
+						if _, err := asn1.Unmarshal(data, &sd); err == nil && len(sd.PublicKeys) > 1 {
+							switch f.Data {
+							case "public-keys-0":
+								sd.PublicKeys = nil
+							case "public-keys-2":
+								sd.PublicKeys = sd.PublicKeys[:2]
+							case "public-keys-n-1":
+								sd.PublicKeys = sd.PublicKeys[:len(sd.PublicKeys)-1]
+							case "public-keys-n+1":
+								sd.PublicKeys = append(sd.PublicKeys, sd.PublicKeys[0])
+							}
+							data, _ = asn1.Marshal(sd)
+						}
 					case "fewer-public-keys":
 						// well-formed stored data of this scheme that lists fewer public keys than parties
 						var sd struct {
@@ -298,7 +318,7 @@ func oracle(c *harness.C, k cfg, f fault, o *out) {
 		case "cancel":
 			mustFail = id == f.Peer && r.Err == nil && false
 		case "precondition":
-			mustFail = id == f.Peer && f.Data != "fewer-public-keys"
+			mustFail = id == f.Peer && f.Data != "fewer-public-keys" && !strings.HasPrefix(f.Data, "public-keys-")
 		case "silent-after":
 			// a participant is missing altogether: an interactive session cannot complete
 			// (BLS/PS signing is non-interactive and may legitimately succeed)
@@ -448,7 +468,7 @@ func gen(c *harness.C) []harness.Case {
 			}
 		}
 		if k.Op == "sign" {
-			for _, d := range []string{"nil", "empty", "truncated", "random", "other-scheme", "fewer-public-keys"} {
+			for _, d := range []string{"nil", "empty", "truncated", "random", "other-scheme", "fewer-public-keys", "public-keys-0", "public-keys-2", "public-keys-n-1", "public-keys-n+1"} {
 				d := d
 				cases = append(cases, harness.Case{ID: k.String() + "/precondition/" + d, Run: func(c *harness.C) {
 					cell(c, k, fault{Kind: "precondition", Peer: 2, Data: d})
